@@ -35,6 +35,11 @@ structure Ext where
   /-- Python `c.isdigit()` -/
   isDigit : Char ‚Üí Bool
 
+/-- the three special unit indicators -/
+def uText : Str := "text".toList
+def uOnoff : Str := "onoff".toList
+def uDatetime : Str := "datetime".toList
+
 def NaN : Str := "nan".toList
 def NaT : Str := "NaT".toList
 
@@ -157,10 +162,10 @@ def parseDatetime (ext : Ext) : List Cell ‚Üí Fixer ‚Üí Except PyExc (List Str √
 
 /-- `parse_column`: dispatch on the (stripped) unit indicator -/
 def parseColumn (ext : Ext) (unit : Str) (cells : List Cell) (f : Fixer) : Except PyExc (ColVals √ó Fixer) :=
-  if unit = "text".toList then .ok (.text (cells.map Cell.pyStr), f)
-  else if unit = "onoff".toList then
+  if unit = uText then .ok (.text (cells.map Cell.pyStr), f)
+  else if unit = uOnoff then
     let (v, f') := parseOnoff cells f; .ok (.onoff v, f')
-  else if unit = "datetime".toList then do
+  else if unit = uDatetime then do
     let (v, f') ‚Üê parseDatetime ext cells f; pure (.dt v, f')
   else
     let (v, f') := parseFloat ext cells f; .ok (.num v, f')
